@@ -5,6 +5,14 @@ from pathlib import Path
 V = Path(__file__).resolve().parent.parent
 ALL = [f"C{i:02d}" for i in range(1, 21)]
 CLAIMED = {
+    "C09": dict(
+        text="Coq theorem over abstract file-system effect lists: if the workers are pairwise independent (no two touch the same file; shared mkdirs are idempotent), every interleaving of their effects that keeps each "
+             "worker's own order leaves the same file system as running them one after another in argument order (n-way shuffle, induction with a move-to-front commutation lemma). "
+             "PARTIAL: that the real workers are independent and that the parent's merge then yields the sequential result are measured: real forked worker processes under an audit hook (files opened for writing/renamed per pid, "
+             "pairwise disjoint), and the resulting dataset (whole metadata tree, iteration order, check, return values) compared with the single-process run, incl. delays that make later writers finish first and more writers than CPUs.",
+        note="Trusted: Coq kernel, harness; uuid4 names distinct; Pool.imap ordered; fork start method; workers share only the directory.",
+        technique="Coq proof (commutation of independent effects over all interleavings) + measured footprints of real worker processes + differential vs sequential run",
+        design="7/C09"),
     "C10": dict(
         text="Coq theorems over an executable model of the filler (write_example/close_shard/__exit__) whose decision kernels "
              "(roll-over test, metadata-change test, exit test, effect order, attach mode) are regenerated from dataset_filler.py on every run: "
